@@ -725,13 +725,14 @@ def stream_two_crashes(X):
     d = X.newdir()
     path = os.path.join(d, ref['files'][0])
     nscan = 120 if c.tier == 'quick' else 1200
-    budget = 6 if c.tier == 'quick' else 60
+    budget = 10 if c.tier == 'quick' else 60
     pairs = []
     for new, old, tag in ((D1, D2, 'short-over-long'), (D2, D1, 'long-over-short')):
-        for m in (len(old) - 25, len(old) - 1, len(old) // 2):
-            lo = next(i for i, (x, y) in enumerate(zip(new, old)) if x != y)
+        for m in (len(old) - 1, len(old) - 25, len(old) // 2):
+            lo = next(i for i, (x, y) in enumerate(zip(new, old)) if x != y and i >= 11)   # first difference after the PROTO/FRAME header
             ks = sorted(set(k for k in list(range(max(1, lo - 5), min(m, lo + nscan))) + [c.rng.randrange(1, m) for _ in range(nscan // 4)] if 0 < k < m))
-            pairs += [(tag, k, m, new[:k] + old[k:m]) for k in ks]
+            pairs.append([(tag, k, m, new[:k] + old[k:m]) for k in ks])
+    pairs = [x for grp in itertools.zip_longest(*pairs) for x in grp if x is not None]   # round robin over (direction, m)
 
     def explore():
         stats = collections.Counter(); bad = []
@@ -774,10 +775,11 @@ def stream_two_crashes(X):
     path0 = os.path.join(d, subs[0], '0000')
     rpairs = []
     for new, old_, tag in ((R1, R2, 'short-over-long'), (R2, R1, 'long-over-short')):
-        for m in (len(old_) - 25, len(old_) - 1):
-            lo = next(i for i, (x, y) in enumerate(zip(new, old_)) if x != y)
+        for m in (len(old_) - 1, len(old_) - 25):
+            lo = next(i for i, (x, y) in enumerate(zip(new, old_)) if x != y and i >= 11)
             ks = sorted(set(k for k in list(range(max(1, lo - 5), min(m, lo + nscan))) + [c.rng.randrange(1, m) for _ in range(nscan // 4)] if 0 < k < m))
-            rpairs += [(tag, k, m, new[:k] + old_[k:m]) for k in ks]
+            rpairs.append([(tag, k, m, new[:k] + old_[k:m]) for k in ks])
+    rpairs = [x for grp in itertools.zip_longest(*rpairs) for x in grp if x is not None]
 
     def explore_rec():
         stats = collections.Counter(); bad = []
@@ -786,7 +788,7 @@ def stream_two_crashes(X):
             if time.time() > t_end: stats['budget-cut'] += 1; break
             write(path0, data)
             r = real_iter(d, obj, 4)
-            res = 'right' if (r['items'], r['fin']) == (specrun['items'], specrun['fin']) else 'WRONG-SEQUENCE' if r['fin'] == specrun['fin'] else r['fin'][:40]
+            res = 'right' if (r['items'], r['fin']) == (specrun['items'], specrun['fin']) else 'WRONG-SEQUENCE' if r['fin'] == specrun['fin'] else ' '.join(r['fin'].split()[:2])
             stats[tag + ':' + res] += 1
             if res != 'right' and len(bad) < 5: bad.append((tag, k, m, res))
         return dict(stats), bad
